@@ -93,6 +93,10 @@ def build(spec):
             q = _qscalar(v)
             F[i, i] = [q.w, q.x, q.y, q.z]
         A = qalg.from_comps(F)
+    elif g == "entry":
+        F = np.zeros((spec["m"], spec["n"], 4))
+        F[spec["i"], spec["j"]] = [float(v) for v in spec["q"]]
+        A = qalg.from_comps(F)
     elif g == "zeros":
         A = qalg.zeros(spec["m"], spec["n"])
     elif g == "unitvec":
@@ -154,7 +158,7 @@ def shape_of(spec):
     if not isinstance(spec, dict):
         return None
     g = spec.get("gen")
-    if g in ("gauss", "int", "psvd", "zeros", "real", "complex"):
+    if g in ("gauss", "int", "psvd", "zeros", "real", "complex", "entry"):
         return (spec["m"], spec["n"])
     if g in ("herm", "unitary", "cI", "I_lowrank", "tri"):
         return (spec["n"], spec["n"])
